@@ -1,3 +1,689 @@
-use vcommon::{Args, Value};
-pub fn main(_args: &Args, _threads: usize) -> ! { vcommon::machinery_error("not built yet") }
-pub fn replay(_prop: &str, _case: &Value) -> i32 { 2 }
+//! Engine A, typed mode (C18): the layout is a function of the resolver's answers only, and the
+//! pre-computed type tables are faithful.
+//!
+//! (1) every (type x entry point) attaches exactly the resolver's answer / the override;
+//! (2) every typed history up to a bound, run on the real native builder under a synthetic
+//!     resolver whose answers differ from the host's, gives the same lists and offsets as the same
+//!     history with the same numbers injected explicitly;
+//! (3) every entry of the standard table: typed and dynamic lookups = registration = host
+//!     resolver, and identical after the JSON round trip.
+
+use std::{
+    collections::{BTreeMap, HashSet},
+    panic::{catch_unwind, AssertUnwindSafe},
+};
+
+use truc::record::{
+    definition::{
+        builder::native::{variant, DatumDefinitionOverride, NativeRecordDefinitionBuilder},
+        DatumId, RecordVariantId,
+    },
+    type_resolver::{DynamicTypeInfo, HostTypeResolver, StaticTypeResolver, TypeInfo, TypeResolver},
+};
+use vcommon::{json, Args, Report, Tier, Value, Violation};
+
+// ---------------------------------------------------------------------------------------
+// synthetic resolver ("a 32-bit table on a 64-bit host", and worse)
+// ---------------------------------------------------------------------------------------
+
+struct Ty {
+    /// what std::any::type_name gives
+    std_name: &'static str,
+    /// the name the resolver answers with
+    name: &'static str,
+    size: usize,
+    align: usize,
+    copy: bool,
+}
+
+const TYPES: &[Ty] = &[
+    Ty { std_name: "u8", name: "u8", size: 1, align: 1, copy: true },
+    Ty { std_name: "u16", name: "u16", size: 2, align: 2, copy: true },
+    Ty { std_name: "u32", name: "u32", size: 4, align: 4, copy: true },
+    Ty { std_name: "u64", name: "u64", size: 8, align: 4, copy: true },
+    Ty { std_name: "u128", name: "u128", size: 16, align: 4, copy: true },
+    Ty { std_name: "usize", name: "usize", size: 4, align: 4, copy: true },
+    Ty { std_name: "f64", name: "f64", size: 8, align: 4, copy: true },
+    Ty { std_name: "alloc::string::String", name: "String", size: 12, align: 4, copy: false },
+    Ty { std_name: "[u8; 3]", name: "[u8 ; 3]", size: 3, align: 1, copy: true },
+    Ty { std_name: "()", name: "()", size: 0, align: 1, copy: true },
+    // zero-size types have a target-dependent alignment too
+    Ty { std_name: "[u64; 0]", name: "[u64 ; 0]", size: 0, align: 4, copy: true },
+    Ty { std_name: "[u16; 0]", name: "[u16 ; 0]", size: 0, align: 16, copy: true },
+];
+
+struct Synth;
+
+impl Synth {
+    fn by_std(name: &str) -> &'static Ty {
+        TYPES
+            .iter()
+            .find(|t| t.std_name == name)
+            .unwrap_or_else(|| panic!("synthetic resolver: unknown type {}", name))
+    }
+}
+
+impl TypeResolver for Synth {
+    fn type_info<T>(&self) -> TypeInfo {
+        let t = Self::by_std(std::any::type_name::<T>());
+        TypeInfo { name: t.name.to_owned(), size: t.size, align: t.align }
+    }
+    fn dynamic_type_info(&self, type_name: &str) -> DynamicTypeInfo {
+        let t = TYPES
+            .iter()
+            .find(|t| t.name == type_name || t.std_name == type_name)
+            .unwrap_or_else(|| panic!("synthetic resolver: unknown type {}", type_name));
+        DynamicTypeInfo {
+            info: TypeInfo { name: t.name.to_owned(), size: t.size, align: t.align },
+            allow_uninit: t.copy,
+        }
+    }
+}
+
+#[derive(Clone, Copy, PartialEq, Eq, Hash, Debug, PartialOrd, Ord)]
+enum Entry {
+    Typed,
+    Uninit,
+    Dynamic,
+    /// bit 0 name, 1 size, 2 align, 3 allow_uninit overridden
+    Override(u8),
+    Copy,
+}
+
+const OVR_NAME: &str = "Overridden";
+const OVR_SIZE: usize = 20;
+const OVR_ALIGN: usize = 2;
+
+fn all_entries() -> Vec<Entry> {
+    let mut v = vec![Entry::Typed, Entry::Uninit, Entry::Dynamic, Entry::Copy];
+    v.extend((0..16).map(Entry::Override));
+    v
+}
+
+macro_rules! with_type {
+    ($idx:expr, $f:ident, $($args:expr),*) => {
+        match $idx {
+            0 => $f::<u8>($($args),*),
+            1 => $f::<u16>($($args),*),
+            2 => $f::<u32>($($args),*),
+            3 => $f::<u64>($($args),*),
+            4 => $f::<u128>($($args),*),
+            5 => $f::<usize>($($args),*),
+            6 => $f::<f64>($($args),*),
+            7 => $f::<String>($($args),*),
+            8 => $f::<[u8; 3]>($($args),*),
+            9 => $f::<()>($($args),*),
+            10 => $f::<[u64; 0]>($($args),*),
+            _ => $f::<[u16; 0]>($($args),*),
+        }
+    };
+}
+
+macro_rules! with_copy_type {
+    ($idx:expr, $f:ident, $($args:expr),*) => {
+        match $idx {
+            0 => $f::<u8>($($args),*),
+            1 => $f::<u16>($($args),*),
+            2 => $f::<u32>($($args),*),
+            3 => $f::<u64>($($args),*),
+            4 => $f::<u128>($($args),*),
+            5 => $f::<usize>($($args),*),
+            6 => $f::<f64>($($args),*),
+            8 => $f::<[u8; 3]>($($args),*),
+            9 => $f::<()>($($args),*),
+            10 => $f::<[u64; 0]>($($args),*),
+            11 => $f::<[u16; 0]>($($args),*),
+            _ => unreachable!(),
+        }
+    };
+}
+
+type SB = NativeRecordDefinitionBuilder<Synth>;
+type HB = NativeRecordDefinitionBuilder<HostTypeResolver>;
+
+fn add_typed<T>(b: &mut SB, name: &str) -> Result<DatumId, String> {
+    b.add_datum::<T, _>(name)
+}
+fn add_uninit<T: Copy>(b: &mut SB, name: &str) -> Result<DatumId, String> {
+    b.add_datum_allow_uninit::<T, _>(name)
+}
+fn add_override<T>(b: &mut SB, name: &str, mask: u8) -> Result<DatumId, String> {
+    b.add_datum_override::<T, _>(
+        name,
+        DatumDefinitionOverride {
+            type_name: (mask & 1 != 0).then(|| OVR_NAME.to_owned()),
+            size: (mask & 2 != 0).then_some(OVR_SIZE),
+            align: (mask & 4 != 0).then_some(OVR_ALIGN),
+            allow_uninit: (mask & 8 != 0).then_some(true),
+        },
+    )
+}
+
+/// What must be attached to a datum of type `ty` added through `entry`.
+fn expected(ty: usize, entry: Entry) -> (String, usize, usize, bool) {
+    let t = &TYPES[ty];
+    match entry {
+        Entry::Typed => (t.name.to_owned(), t.size, t.align, false),
+        Entry::Uninit => (t.name.to_owned(), t.size, t.align, true),
+        Entry::Dynamic | Entry::Copy => (t.name.to_owned(), t.size, t.align, t.copy),
+        Entry::Override(m) => (
+            if m & 1 != 0 { OVR_NAME.to_owned() } else { t.name.to_owned() },
+            if m & 2 != 0 { OVR_SIZE } else { t.size },
+            if m & 4 != 0 { OVR_ALIGN } else { t.align },
+            m & 8 != 0,
+        ),
+    }
+}
+
+fn applicable(ty: usize, entry: Entry) -> bool {
+    !(entry == Entry::Uninit && !TYPES[ty].copy)
+}
+
+fn add_synth(b: &mut SB, name: &str, ty: usize, entry: Entry) -> Result<DatumId, String> {
+    match entry {
+        Entry::Typed => with_type!(ty, add_typed, b, name),
+        Entry::Uninit => with_copy_type!(ty, add_uninit, b, name),
+        Entry::Dynamic => b.add_dynamic_datum(name, TYPES[ty].name),
+        Entry::Override(m) => with_type!(ty, add_override, b, name, m),
+        Entry::Copy => {
+            // a datum of another definition, built under the same resolver
+            let mut other = NativeRecordDefinitionBuilder::new(Synth);
+            let id = other.add_dynamic_datum(name, TYPES[ty].name)?;
+            other.close_record_variant();
+            let def = other.build();
+            b.copy_datum(&def[id])
+        }
+    }
+}
+
+/// The same request with the numbers injected explicitly, under the host resolver.
+fn add_host(b: &mut HB, name: &str, ty: usize, entry: Entry) -> Result<DatumId, String> {
+    let (n, s, a, u) = expected(ty, entry);
+    b.add_datum_override::<(), _>(
+        name,
+        DatumDefinitionOverride { type_name: Some(n), size: Some(s), align: Some(a), allow_uninit: Some(u) },
+    )
+}
+
+#[derive(Clone, PartialEq, Eq, Hash, Debug, PartialOrd, Ord)]
+struct TStep {
+    remove: Vec<u8>,
+    add: Vec<(u8, Entry)>,
+    strat: u8,
+}
+
+fn entry_json(e: Entry) -> Value {
+    match e {
+        Entry::Override(m) => json!({"override_mask_name_size_align_uninit": m}),
+        other => json!(format!("{:?}", other)),
+    }
+}
+
+fn entry_from(v: &Value) -> Entry {
+    if let Some(m) = v["override_mask_name_size_align_uninit"].as_u64() {
+        return Entry::Override(m as u8);
+    }
+    match v.as_str() {
+        Some("Typed") => Entry::Typed,
+        Some("Uninit") => Entry::Uninit,
+        Some("Dynamic") => Entry::Dynamic,
+        _ => Entry::Copy,
+    }
+}
+
+fn hist_json(h: &[TStep]) -> Value {
+    json!({"space": "typed-history", "steps": h.iter().map(|s| json!({
+        "remove_positions": s.remove,
+        "add": s.add.iter().map(|(t, e)| json!({"type": TYPES[*t as usize].std_name, "entry": entry_json(*e)})).collect::<Vec<_>>(),
+        "close_with": crate::exec::STRATEGIES[s.strat as usize],
+    })).collect::<Vec<_>>()})
+}
+
+fn hist_from(v: &Value) -> Vec<TStep> {
+    v["steps"]
+        .as_array()
+        .map(|a| {
+            a.iter()
+                .map(|s| TStep {
+                    remove: s["remove_positions"].as_array().map(|r| r.iter().map(|x| x.as_u64().unwrap() as u8).collect()).unwrap_or_default(),
+                    add: s["add"]
+                        .as_array()
+                        .map(|r| {
+                            r.iter()
+                                .map(|x| (TYPES.iter().position(|t| Some(t.std_name) == x["type"].as_str()).unwrap() as u8, entry_from(&x["entry"])))
+                                .collect()
+                        })
+                        .unwrap_or_default(),
+                    strat: crate::exec::STRATEGIES.iter().position(|n| Some(*n) == s["close_with"].as_str()).unwrap_or(0) as u8,
+                })
+                .collect()
+        })
+        .unwrap_or_default()
+}
+
+type Obs = Vec<(String, String, usize, usize, usize, bool)>; // name, type, size, align, offset, uninit
+
+fn close_s(b: &mut SB, s: u8) -> RecordVariantId {
+    match s {
+        0 => b.close_record_variant_with(variant::simple),
+        1 => b.close_record_variant_with(variant::basic),
+        2 => b.close_record_variant_with(variant::append_data),
+        _ => b.close_record_variant_with(variant::append_data_reverse),
+    }
+}
+fn close_h(b: &mut HB, s: u8) -> RecordVariantId {
+    match s {
+        0 => b.close_record_variant_with(variant::simple),
+        1 => b.close_record_variant_with(variant::basic),
+        2 => b.close_record_variant_with(variant::append_data),
+        _ => b.close_record_variant_with(variant::append_data_reverse),
+    }
+}
+
+/// Runs the history on both sides; returns the per-variant observations of the synthetic side or
+/// a violation.
+fn run_both(h: &[TStep]) -> Result<Vec<Obs>, (String, String)> {
+    let res = catch_unwind(AssertUnwindSafe(|| -> Result<Vec<Obs>, (String, String)> {
+        let mut sb: SB = NativeRecordDefinitionBuilder::new(Synth);
+        let mut hb: HB = NativeRecordDefinitionBuilder::new(HostTypeResolver);
+        let mut s_last: Vec<DatumId> = vec![];
+        let mut h_last: Vec<DatumId> = vec![];
+        let mut out = vec![];
+        let mut n = 0;
+        for step in h {
+            for &p in &step.remove {
+                sb.remove_datum(s_last[p as usize]).map_err(|e| ("valid-removal-rejected".to_owned(), e))?;
+                hb.remove_datum(h_last[p as usize]).map_err(|e| ("valid-removal-rejected".to_owned(), e))?;
+            }
+            for &(ty, entry) in &step.add {
+                n += 1;
+                let name = format!("d{}", n);
+                let id = add_synth(&mut sb, &name, ty as usize, entry).map_err(|e| ("valid-add-rejected".to_owned(), e))?;
+                add_host(&mut hb, &name, ty as usize, entry).map_err(|e| ("valid-add-rejected".to_owned(), e))?;
+                let d = &sb[id];
+                let got = (d.details().type_name().to_owned(), d.details().size(), d.details().type_align(), d.details().allow_uninit());
+                let want = expected(ty as usize, entry);
+                if got != want {
+                    return Err((
+                        format!("type-info/{:?}", match entry { Entry::Override(_) => "Override".to_owned(), e => format!("{:?}", e) }),
+                        format!("datum of type {} added through {:?} carries (name, size, align, may-be-uninit) = {:?}; the resolver / override said {:?}", TYPES[ty as usize].std_name, entry, got, want),
+                    ));
+                }
+            }
+            let sv = close_s(&mut sb, step.strat);
+            let hv = close_h(&mut hb, step.strat);
+            s_last = sb[sv].data().collect();
+            h_last = hb[hv].data().collect();
+            let so: Obs = s_last.iter().map(|id| { let d = &sb[*id]; (d.name().to_owned(), d.details().type_name().to_owned(), d.details().size(), d.details().type_align(), d.details().offset(), d.details().allow_uninit()) }).collect();
+            let ho: Obs = h_last.iter().map(|id| { let d = &hb[*id]; (d.name().to_owned(), d.details().type_name().to_owned(), d.details().size(), d.details().type_align(), d.details().offset(), d.details().allow_uninit()) }).collect();
+            if so != ho {
+                return Err((
+                    format!("layout-differs/closed-with-{}", crate::exec::STRATEGIES[step.strat as usize]),
+                    format!("under the synthetic resolver the variant is {:?}; with the same sizes and alignments given explicitly it is {:?}", so, ho),
+                ));
+            }
+            out.push(so);
+        }
+        let sd = sb.build();
+        let hd = hb.build();
+        if (sd.max_size(), sd.max_type_align()) != (hd.max_size(), hd.max_type_align()) {
+            return Err(("capacity-differs".to_owned(), format!("capacity/alignment ({}, {}) vs ({}, {})", sd.max_size(), sd.max_type_align(), hd.max_size(), hd.max_type_align())));
+        }
+        Ok(out)
+    }));
+    match res {
+        Ok(r) => r,
+        Err(p) => Err(("panic".to_owned(), vcommon::panic_message(&*p))),
+    }
+}
+
+// ---------------------------------------------------------------------------------------
+// standard table
+// ---------------------------------------------------------------------------------------
+
+fn check_std<T>(table: &StaticTypeResolver, again: &StaticTypeResolver, copy: bool, count: &mut u64, bad: &mut Vec<(String, String)>) {
+    *count += 1;
+    let host = HostTypeResolver.type_info::<T>();
+    let std_name = std::any::type_name::<T>();
+    let typed = catch_unwind(AssertUnwindSafe(|| table.type_info::<T>()));
+    let typed = match typed {
+        Ok(t) => t,
+        Err(_) => {
+            bad.push(("table/typed-lookup-failed".into(), format!("{} is not found by type", std_name)));
+            return;
+        }
+    };
+    if typed != host || host.size != std::mem::size_of::<T>() || host.align != std::mem::align_of::<T>() {
+        bad.push(("table/typed-differs-from-host".into(), format!("{}: table {:?}, host {:?}, real ({}, {})", std_name, typed, host, std::mem::size_of::<T>(), std::mem::align_of::<T>())));
+    }
+    // every spelling: the recorded name, the compiler's name, without spaces
+    let mut spellings = vec![host.name.clone(), std_name.to_owned(), host.name.replace(' ', "")];
+    spellings.push(format!(" {} ", std_name.replace(", ", " ,  ")));
+    for sp in spellings {
+        for (which, t) in [("table", table), ("table-after-json", again)] {
+            match catch_unwind(AssertUnwindSafe(|| t.dynamic_type_info(&sp))) {
+                Ok(d) => {
+                    if d.info != host || d.allow_uninit != copy {
+                        bad.push((format!("{}/dynamic-differs", which), format!("{:?}: {} answers {:?}, registered {:?} (may-be-uninit {})", sp, which, d, host, copy)));
+                    }
+                }
+                Err(_) => bad.push((format!("{}/dynamic-lookup-failed", which), format!("{} does not find {:?}", which, sp))),
+            }
+        }
+    }
+}
+
+macro_rules! std_one {
+    ($t:ty, $copy:expr, $c:ident) => {
+        check_std::<$t>($c.0, $c.1, $copy, $c.2, $c.3);
+        check_std::<Option<$t>>($c.0, $c.1, $copy, $c.2, $c.3);
+    };
+}
+macro_rules! std_arrays {
+    ($t:ty, $copy:expr, $c:ident) => {
+        std_one!($t, $copy, $c);
+        std_one!([$t; 1], $copy, $c);
+        std_one!([$t; 2], $copy, $c);
+        std_one!([$t; 3], $copy, $c);
+        std_one!([$t; 4], $copy, $c);
+        std_one!([$t; 5], $copy, $c);
+        std_one!([$t; 6], $copy, $c);
+        std_one!([$t; 7], $copy, $c);
+        std_one!([$t; 8], $copy, $c);
+        std_one!([$t; 9], $copy, $c);
+        std_one!([$t; 10], $copy, $c);
+    };
+}
+
+fn check_table() -> (u64, u64, Vec<(String, String)>) {
+    let mut table = StaticTypeResolver::new();
+    table.add_std_types();
+    let js = table.to_json_string().expect("json");
+    let map: BTreeMap<String, DynamicTypeInfo> = serde_json::from_str(&js).expect("parse");
+    let n_entries = map.len() as u64;
+    let again = StaticTypeResolver::from(map.clone());
+    let mut bad = vec![];
+    let mut count = 0u64;
+    {
+        let mut c = (&table, &again, &mut count, &mut bad);
+        let c = &mut c;
+        std_arrays!(u8, true, c);
+        std_arrays!(u16, true, c);
+        std_arrays!(u32, true, c);
+        std_arrays!(u64, true, c);
+        std_arrays!(u128, true, c);
+        std_arrays!(usize, true, c);
+        std_arrays!(i8, true, c);
+        std_arrays!(i16, true, c);
+        std_arrays!(i32, true, c);
+        std_arrays!(i64, true, c);
+        std_arrays!(i128, true, c);
+        std_arrays!(isize, true, c);
+        std_arrays!(f32, true, c);
+        std_arrays!(f64, true, c);
+        std_arrays!(char, true, c);
+        std_arrays!(bool, true, c);
+        std_arrays!(String, false, c);
+        std_arrays!(Box<str>, false, c);
+        std_arrays!(Vec<()>, false, c);
+    }
+    if count != n_entries {
+        bad.push(("table/entry-count".into(), format!("the standard table has {} entries, {} standard types were checked", n_entries, count)));
+    }
+    // every entry of the JSON form answers itself, before and after the round trip
+    for (name, info) in &map {
+        for (which, t) in [("table", &table), ("table-after-json", &again)] {
+            match catch_unwind(AssertUnwindSafe(|| t.dynamic_type_info(name))) {
+                Ok(d) => {
+                    if d.info != info.info || d.allow_uninit != info.allow_uninit || &d.info.name != name {
+                        bad.push((format!("{}/entry-differs", which), format!("{}: {:?} vs registered {:?}", name, d, info)));
+                    }
+                }
+                Err(_) => bad.push((format!("{}/entry-lookup-failed", which), name.clone())),
+            }
+        }
+    }
+    let js2 = again.to_json_string().expect("json");
+    if js2 != js {
+        bad.push(("table/json-roundtrip-differs".into(), "to_json_string() differs after from_str -> from".into()));
+    }
+    // a user registration is answered as registered
+    #[derive(Clone, Copy)]
+    #[allow(dead_code)]
+    struct Custom(u16, u8);
+    let mut t2 = StaticTypeResolver::new();
+    t2.add_type::<Custom>();
+    t2.add_type_allow_uninit::<(u8, Custom)>();
+    let a = t2.type_info::<Custom>();
+    if a.size != std::mem::size_of::<Custom>() || a.align != std::mem::align_of::<Custom>() {
+        bad.push(("table/custom-registration".into(), format!("{:?}", a)));
+    }
+    let d = t2.dynamic_type_info(&a.name);
+    if d.info != a || d.allow_uninit {
+        bad.push(("table/custom-registration".into(), format!("{:?}", d)));
+    }
+    let d2 = t2.dynamic_type_info(std::any::type_name::<(u8, Custom)>());
+    if !d2.allow_uninit || d2.info.size != std::mem::size_of::<(u8, Custom)>() {
+        bad.push(("table/custom-registration".into(), format!("{:?}", d2)));
+    }
+    (count, n_entries, bad)
+}
+
+// ---------------------------------------------------------------------------------------
+
+fn subsets(m: usize, max: usize) -> Vec<Vec<u8>> {
+    let mut out = vec![vec![]];
+    if max >= 1 {
+        for i in 0..m {
+            out.push(vec![i as u8]);
+        }
+    }
+    if max >= 2 {
+        for i in 0..m {
+            for j in (i + 1)..m {
+                out.push(vec![i as u8, j as u8]);
+            }
+        }
+    }
+    out
+}
+
+pub fn main(args: &Args, threads: usize) -> ! {
+    let mut report = Report::new("hist", args, "model_checking");
+    let mut transitions = 0u64;
+    let mut states = 1u64;
+    let mut samples = vec![];
+
+    // (1) every type x entry point, alone and as second datum
+    let mut single = 0u64;
+    for ty in 0..TYPES.len() {
+        for e in all_entries() {
+            if !applicable(ty, e) {
+                continue;
+            }
+            for first in [None, Some((0u8, Entry::Typed)), Some((3u8, Entry::Typed))] {
+                let mut add = vec![];
+                if let Some(f) = first {
+                    add.push(f);
+                }
+                add.push((ty as u8, e));
+                for strat in 0..4 {
+                    let h = vec![TStep { remove: vec![], add: add.clone(), strat }];
+                    single += 1;
+                    if let Err((k, t)) = run_both(&h) {
+                        report.add(Violation::new(format!("C18/{}", k), t, hist_json(&h)));
+                    }
+                }
+            }
+        }
+    }
+    transitions += single;
+
+    // (2) typed histories: alphabet = 12 types x {typed, dynamic, copy, override(size+align)}
+    let entries = [Entry::Typed, Entry::Dynamic, Entry::Copy, Entry::Override(6)];
+    let mut alphabet: Vec<(u8, Entry)> = vec![];
+    for ty in 0..TYPES.len() {
+        for (i, e) in entries.iter().enumerate() {
+            // rotate the entry points over the types (all 4 for the first four types) to bound the alphabet
+            if ty < 4 || i == ty % 4 {
+                alphabet.push((ty as u8, *e));
+            }
+        }
+    }
+    let (a1, a2, rmax, vmax) = if args.tier == Tier::Quick { (2, 1, 1, 3) } else { (3, 1, 2, 3) };
+    let mut seqs1: Vec<Vec<(u8, Entry)>> = vec![vec![]];
+    {
+        let mut layer = vec![vec![]];
+        for _ in 0..a1 {
+            let mut next = vec![];
+            for s in &layer {
+                for a in &alphabet {
+                    let mut t: Vec<(u8, Entry)> = s.clone();
+                    t.push(*a);
+                    next.push(t);
+                }
+            }
+            seqs1.extend(next.iter().cloned());
+            layer = next;
+        }
+    }
+    let mut seqs2: Vec<Vec<(u8, Entry)>> = vec![vec![]];
+    {
+        let mut layer = vec![vec![]];
+        for _ in 0..a2 {
+            let mut next = vec![];
+            for s in &layer {
+                for a in &alphabet {
+                    let mut t: Vec<(u8, Entry)> = s.clone();
+                    t.push(*a);
+                    next.push(t);
+                }
+            }
+            seqs2.extend(next.iter().cloned());
+            layer = next;
+        }
+    }
+    let mut frontier: Vec<(Vec<TStep>, usize)> = vec![(vec![], 0)];
+    let mut seen: HashSet<Vec<(usize, usize, usize, bool)>> = HashSet::new();
+    let mut levels = vec![];
+    for level in 0..vmax {
+        let seqs = if level == 0 { &seqs1 } else { &seqs2 };
+        let chunks: Vec<&[(Vec<TStep>, usize)]> = frontier.chunks((frontier.len() / threads.max(1)).max(1)).collect();
+        let results: Vec<(u64, Vec<(Vec<(usize, usize, usize, bool)>, Vec<TStep>)>, Vec<Violation>)> = std::thread::scope(|s| {
+            let hs: Vec<_> = chunks
+                .iter()
+                .map(|chunk| {
+                    s.spawn(move || {
+                        let mut t = 0u64;
+                        let mut new = vec![];
+                        let mut bad = vec![];
+                        for (hist, m) in chunk.iter() {
+                            for rem in subsets(*m, rmax) {
+                                for adds in seqs {
+                                    if level > 0 && rem.is_empty() && adds.is_empty() {
+                                        continue;
+                                    }
+                                    for strat in 0..4u8 {
+                                        let mut h2 = hist.clone();
+                                        h2.push(TStep { remove: rem.clone(), add: adds.clone(), strat });
+                                        t += 1;
+                                        match run_both(&h2) {
+                                            Ok(obs) => {
+                                                let last = obs.last().cloned().unwrap_or_default();
+                                                let key: Vec<(usize, usize, usize, bool)> = last.iter().map(|d| (d.4, d.2, d.3, d.5)).collect();
+                                                new.push((key, h2));
+                                            }
+                                            Err((k, txt)) => {
+                                                if bad.len() < 50 {
+                                                    bad.push(Violation::new(format!("C18/{}", k), txt, hist_json(&h2)));
+                                                }
+                                            }
+                                        }
+                                    }
+                                }
+                            }
+                        }
+                        (t, new, bad)
+                    })
+                })
+                .collect();
+            hs.into_iter().map(|h| h.join().unwrap()).collect()
+        });
+        let mut next: BTreeMap<Vec<(usize, usize, usize, bool)>, Vec<TStep>> = BTreeMap::new();
+        let mut lt = 0;
+        for (t, new, bad) in results {
+            lt += t;
+            for v in bad {
+                report.add(v);
+            }
+            for (k, h) in new {
+                if seen.contains(&k) {
+                    continue;
+                }
+                match next.get_mut(&k) {
+                    None => {
+                        next.insert(k, h);
+                    }
+                    Some(old) => {
+                        if h < *old {
+                            *old = h;
+                        }
+                    }
+                }
+            }
+        }
+        transitions += lt;
+        states += next.len() as u64;
+        levels.push(json!({"level": level + 1, "frontier": frontier.len(), "transitions": lt, "new_states": next.len()}));
+        eprintln!("  C18 level {}: frontier {} transitions {} new states {}", level + 1, frontier.len(), lt, next.len());
+        frontier = next.into_iter().map(|(k, h)| { let m = k.len(); seen.insert(k); (h, m) }).collect();
+        if let Some((h, _)) = frontier.get(frontier.len() / 2) {
+            if samples.len() < 3 {
+                samples.push(hist_json(h));
+            }
+        }
+    }
+
+    // (3) the standard table
+    let (checked, entries_n, bad) = check_table();
+    for (k, t) in bad {
+        report.add(Violation::new(format!("C18/{}", k), t, json!({"space": "typed-history", "steps": [], "note": "standard type table"})));
+    }
+    let mut seen_keys = std::collections::BTreeSet::new();
+    report.violations.retain(|v| seen_keys.insert(v.key.clone()));
+    report
+        .cov("states", states)
+        .cov("transitions", transitions)
+        .cov("traces_validated_against_impl", transitions)
+        .cov("samples", samples)
+        .cov("exhaustive", true)
+        .cov("levels", levels)
+        .cov("entry_point_cases", single)
+        .cov("synthetic_types", TYPES.iter().map(|t| json!([t.std_name, t.size, t.align])).collect::<Vec<_>>())
+        .cov("standard_table_entries", entries_n)
+        .cov("standard_table_types_checked", checked)
+        .cov("explanation", "differential model checking: every typed history within the bound is executed on the real native builder twice - under a synthetic resolver whose sizes/alignments differ from the host's, and under the host resolver with the same numbers injected explicitly - and lists, offsets, capacity and alignment must agree after every close; plus the finite (type x entry point) table and the whole standard type table with its JSON round trip");
+    report.assume("synthetic resolver: u64/f64/u128 aligned 4, usize 4/4, String 12/4, [u64;0] aligned 4, [u16;0] aligned 16 (host: 8, 8, 16, 8/8, 24/8, 8, 2)");
+    std::process::exit(report.finish());
+}
+
+pub fn replay(prop: &str, case: &Value) -> i32 {
+    let h = hist_from(case);
+    if h.is_empty() {
+        let (_, _, bad) = check_table();
+        for (k, t) in &bad {
+            println!("REPLAY-VIOLATION property={} key=C18/{} :: {}", prop, k, t);
+        }
+        return if bad.is_empty() { 0 } else { 1 };
+    }
+    match run_both(&h) {
+        Ok(_) => {
+            println!("REPLAY-OK property={}", prop);
+            0
+        }
+        Err((k, t)) => {
+            println!("REPLAY-VIOLATION property={} key=C18/{} :: {}", prop, k, t);
+            1
+        }
+    }
+}
